@@ -190,6 +190,13 @@ def build_interleaved(rng, il, names, extras_at, remove_finished):
     return script, tags, lastx
 
 
+def diff_window(got, ref, before=120, after=400):
+    """the two strings from a little before their first difference"""
+    cp = next((k for k, (a, b) in enumerate(zip(got, ref)) if a != b), min(len(got), len(ref)))
+    lo = max(0, cp - before)
+    return dict(differs_at_char=cp, got=got[lo: cp + after], reference=ref[lo: cp + after])
+
+
 def walk_ops(ops_il, names, cur, existed, out):
     """append the ops of `ops_il` ([(part, op)]) with the flow switches they need; cur = flow that is current on
     entry (None: default flow, "?": unknown — always switch first); returns the flow that is current afterwards"""
@@ -326,7 +333,7 @@ b1
 """, {"a": None, "b": "Fb"},
      [("a", ["PATH", "a_start", True]), ("a", ["CONT"]), ("b", ["PATH", "b_start", True]), ("b", ["CONT"]),
       ("a", ["CONT"]), ("b", ["CHOOSE", 0]), ("b", ["CONT"])], 4,
-     dict(div=[["REMOVE_FLOW", "Fb"], ["SWITCH", "Fz"], ["CONT"], ["SWITCH_DEFAULT"]], order="ops-first",
+     dict(div=[["REMOVE_FLOW", "Fb"]], order="ops-first",
           rel="save-has-flow-the-live-story-lacks")),
 ]
 
@@ -507,7 +514,7 @@ def run(ctx):
                 op = cs[x]["script"][len(cs[x]["script"]) - g["tail"] + d]
                 fails.append(dict(key=f"rewind:{what}:{g['rel']}", case=cs[x], reference_case=cs[y],
                                   save_at=g["save_at"], tail_line=d, op=op,
-                                  got=" | ".join(tails[x][d])[:600], reference=" | ".join(tails[y][d])[:600]))
+                                  **diff_window(" | ".join(tails[x][d]), " | ".join(tails[y][d]))))
                 break
     # correspondence (scripts with SAVE need the save-aware model)
     plain = [c for c in cases if not any(o[0] in ("SAVE", "LOADNEW", "STACKINFO", "SHOWSAVE") for o in c["script"])]
